@@ -1,6 +1,8 @@
 import Fv.Lemmas.PolicyLru
 import Fv.Lemmas.PolicyRandom
 import Fv.Lemmas.PolicySlru
+import Fv.Lemmas.PolicySieve
+import Fv.Lemmas.PolicyClock
 /-!
 # C14 — eviction policies nominate only tracked residents and follow their definition
 
@@ -311,6 +313,130 @@ theorem slru_readmit_updates_cost_partial {s : Slru.State} (h : Slru.Inv s) (k c
   rw [Slru.admit_fst]
   refine ⟨fun hk => ?_, fun hk => by simp [hk]⟩
   simp only [hk, if_false]; rw [(Slru.push_new_spec h hk c).2]; exact costOf_push _ k c
+
+/-! ## SIEVE -/
+
+theorem sieve_inv_step {s : Sieve.State} (h : Sieve.Inv s) (op : Op) : Sieve.Inv (Sieve.step s op) := by
+  cases op with
+  | admit k c =>
+    simp only [Sieve.step, Sieve.Inv, Sieve.tracked_admit, keys_cons, List.nodup_cons]
+    exact ⟨not_mem_keys_without _ _, nodup_without k h⟩
+  | access k c => simp only [Sieve.step, Sieve.Inv, Sieve.tracked_access]; exact h
+  | remove k => simp only [Sieve.step, Sieve.Inv, Sieve.tracked_remove]; exact nodup_without k h
+  | evict n picks =>
+    obtain ⟨popped, _, _, hp, _⟩ := Sieve.evict_spec s n
+    exact (EvictSound.of_perm h hp).nodup'
+  | clear => exact Sieve.Inv_init
+
+theorem sieve_inv_reachable (ops : List Op) : Sieve.Inv (Sieve.run ops) :=
+  foldl_inv Sieve.step Sieve.Inv (fun _ a h => sieve_inv_step h a) ops Sieve.init Sieve.Inv_init
+
+example : Sieve.Inv (Sieve.run [.admit 1 2, .admit 2 0, .access 1 2, .evict 1 []]) := sieve_inv_reachable _
+
+theorem sieve_evict_sound {s : Sieve.State} (h : Sieve.Inv s) (n : Nat) :
+    EvictSound (Sieve.tracked s) (Sieve.tracked (Sieve.evict s n).1) (Sieve.evict s n).2.1 (Sieve.evict s n).2.2
+    ∧ Sieve.Inv (Sieve.evict s n).1 := by
+  obtain ⟨popped, h1, h2, hp, _⟩ := Sieve.evict_spec s n
+  have := EvictSound.of_perm h hp
+  rw [h1, h2]; exact ⟨this, this.nodup'⟩
+
+theorem sieve_evict_enough (s : Sieve.State) {n : Nat}
+    (hn : n ≤ costSum (Sieve.tracked s)) : n ≤ (Sieve.evict s n).2.2 := by
+  obtain ⟨popped, _, h2, hp, hd⟩ := Sieve.evict_spec s n
+  rw [h2]
+  rcases hd with hd | hd
+  · exact hd
+  · have := costSum_perm hp; rw [hd] at this; simp at this; omega
+
+example : 4 ≤ costSum (Sieve.tracked (Sieve.run [.admit 1 2, .admit 2 3])) := by decide
+
+theorem sieve_untrack_only_by_nomination (s : Sieve.State) (k c : Nat) :
+    AccessOk (Sieve.tracked s) (Sieve.tracked (Sieve.access s k c)) k
+    ∧ AdmitOk (Sieve.tracked s) (Sieve.tracked (Sieve.admit s k c).1) k (Sieve.admit s k c).2.victims
+    ∧ RemoveOk (Sieve.tracked s) (Sieve.tracked (Sieve.remove s k)) k
+    ∧ Sieve.tracked (Sieve.clear s) = [] := by
+  refine ⟨?_, ?_, ?_, rfl⟩
+  · rw [Sieve.tracked_access]; exact AccessOk.rfl' k
+  · rw [Sieve.tracked_admit]; exact AdmitOk.of_push _ k c
+  · rw [Sieve.tracked_remove]; exact RemoveOk.of_without _ k
+
+theorem sieve_readmit_updates_cost (s : Sieve.State) (k c : Nat) :
+    costOf (Sieve.tracked (Sieve.admit s k c).1) k = some c := by
+  rw [Sieve.tracked_admit]; exact costOf_push _ k c
+
+/-! ## Clock -/
+
+theorem clock_inv_step {s : Clock.State} (h : Clock.Inv s) (op : Op) : Clock.Inv (Clock.step s op) := by
+  cases op with
+  | admit k c =>
+    simp only [Clock.step, Clock.admit_fst]; split
+    · exact h
+    · next hk =>
+      simp only [Clock.Inv, Clock.tracked, List.map_append, List.map_cons, List.map_nil, Clock.pair]
+      have hp : ((Clock.tracked s) ++ [(k, c)]).Perm ((k, c) :: Clock.tracked s) :=
+        List.perm_append_comm (l₂ := [(k, c)])
+      refine (keys_perm hp).nodup_iff.2 ?_
+      simp only [keys_cons, List.nodup_cons]; exact ⟨hk, h⟩
+  | access k c => simp only [Clock.step, Clock.Inv, Clock.tracked_access]; exact h
+  | remove k => exact (Clock.remove_spec h k).1
+  | evict n picks =>
+    obtain ⟨popped, _, _, hp, _⟩ := Clock.evict_spec s n
+    exact (EvictSound.of_perm h hp).nodup'
+  | clear => exact Clock.Inv_init
+
+theorem clock_inv_reachable (ops : List Op) : Clock.Inv (Clock.run ops) :=
+  foldl_inv Clock.step Clock.Inv (fun _ a h => clock_inv_step h a) ops Clock.init Clock.Inv_init
+
+example : Clock.Inv (Clock.run [.admit 1 2, .admit 2 0, .access 1 2, .evict 1 []]) := clock_inv_reachable _
+
+theorem clock_evict_sound {s : Clock.State} (h : Clock.Inv s) (n : Nat) :
+    EvictSound (Clock.tracked s) (Clock.tracked (Clock.evict s n).1) (Clock.evict s n).2.1 (Clock.evict s n).2.2
+    ∧ Clock.Inv (Clock.evict s n).1 := by
+  obtain ⟨popped, h1, h2, hp, _⟩ := Clock.evict_spec s n
+  have := EvictSound.of_perm h hp
+  rw [h1, h2]; exact ⟨this, this.nodup'⟩
+
+/-- in particular the second-chance sweep always finds a victim while anything is tracked -/
+theorem clock_evict_enough (s : Clock.State) {n : Nat}
+    (hn : n ≤ costSum (Clock.tracked s)) : n ≤ (Clock.evict s n).2.2 := by
+  obtain ⟨popped, _, h2, hp, hd⟩ := Clock.evict_spec s n
+  rw [h2]
+  rcases hd with hd | hd
+  · exact hd
+  · have := costSum_perm hp; rw [hd] at this; simp at this; omega
+
+example : 4 ≤ costSum (Clock.tracked (Clock.run [.admit 1 2, .admit 2 3])) := by decide
+
+theorem clock_untrack_only_by_nomination {s : Clock.State} (h : Clock.Inv s) (k c : Nat) :
+    AccessOk (Clock.tracked s) (Clock.tracked (Clock.access s k c)) k
+    ∧ AdmitOk (Clock.tracked s) (Clock.tracked (Clock.admit s k c).1) k (Clock.admit s k c).2.victims
+    ∧ RemoveOk (Clock.tracked s) (Clock.tracked (Clock.remove s k)) k
+    ∧ Clock.tracked (Clock.clear s) = [] := by
+  refine ⟨?_, ?_, (Clock.remove_spec h k).2, rfl⟩
+  · rw [Clock.tracked_access]; exact AccessOk.rfl' k
+  · have hv : (Clock.admit s k c).2.victims = [] := rfl
+    rw [hv, Clock.admit_fst]; split
+    · next hk => exact AdmitOk.of_noop hk
+    · next hk =>
+      have := AdmitOk.of_append_new hk c
+      simpa [Clock.tracked, Clock.pair] using this
+
+/-- F9c witness: Clock keeps the stale cost on re-admission. -/
+theorem C14_fails_F9c_clock :
+    let s := (Clock.admit (Clock.admit Clock.init 1 1).1 1 5).1
+    costOf (Clock.tracked s) 1 = some 1 := by decide
+
+/-- PARTIAL (F9c): excluded is the cost update on re-admission of a tracked key (no-op, the OLD
+cost stays; no duplication). For an untracked key the cost is recorded as given. -/
+theorem clock_readmit_updates_cost_partial (s : Clock.State) (k c : Nat) :
+    (k ∉ keys (Clock.tracked s) → costOf (Clock.tracked (Clock.admit s k c).1) k = some c)
+    ∧ (k ∈ keys (Clock.tracked s) → (Clock.admit s k c).1 = s) := by
+  rw [Clock.admit_fst]
+  refine ⟨fun hk => ?_, fun hk => by simp [hk]⟩
+  rw [if_neg hk]
+  have : Clock.tracked { s with order := s.order ++ [{ key := k, cost := c, ref := false }] }
+      = Clock.tracked s ++ [(k, c)] := by simp [Clock.tracked, Clock.pair]
+  rw [this, costOf_append, costOf_eq_none_iff.2 hk]; simp [costOf_cons]
 
 /-! ## ARC / TinyLFU witnesses -/
 
